@@ -133,6 +133,12 @@ BODY_POS_NOISE = {"Moon": 0.03, "Sun": 0.7}
 
 
 def jobs(tier):
+    from .. import repotests
+
+    return _jobs(tier) + [repotests.job()]  # + the repository's own tests as a workload for invariant hooks
+
+
+def _jobs(tier):
     # ~4.5 core-seconds per case (1300 conversions for the affine maps, 190 of them through the 15 ms IAU-2010 series)
     if tier == "quick":
         return [
@@ -155,6 +161,12 @@ def jobs(tier):
 
 
 def requirements(tier):
+    from .. import repotests
+
+    return dict(_requirements(tier), **repotests.MIN["C02"])
+
+
+def _requirements(tier):
     k = 1 if tier == "quick" else 10  # 148 / 1608 full cases
     req = {
         "eop:real": 50 * k, "eop:zero": 20 * k, "eop:missing": 20 * k, "eop:const": 10 * k, "eop:missing-warning": 3,
